@@ -12,6 +12,7 @@ correspond: real threads under the deterministic line-level scheduler (verif/sch
 from __future__ import annotations
 
 import json
+import os
 import random
 import threading
 from typing import Any
@@ -371,6 +372,37 @@ def search(chk: core.Check) -> None:
     explore(chk, ["mem", "journal-symlink"], 600, tag="-search")
 
 
+def journal_create_study_race(chk: core.Check) -> None:
+    """Known finding F36: JournalStorage.create_new_study finds its new study by NAME after the sync; when another worker's
+    delete_study of exactly that id lands between this worker's append and its read (ids are predictable: 0, 1, 2, ...), the
+    search finds nothing and the call dies with `assert False` - an answer no sequential order of {create, delete} produces.
+    (Lean: C06FrontGen.front_create_new_study_deleted_in_between_witness.)"""
+    from optuna.storages import JournalStorage
+    from optuna.storages.journal import JournalFileBackend
+    from optuna.study import StudyDirection
+
+    path = os.path.join(chk.tmp, "f36_%d.log" % os.getpid())
+    a, b = JournalStorage(JournalFileBackend(path)), JournalStorage(JournalFileBackend(path))
+    orig = a._backend.append_logs
+
+    def hooked(logs: list[dict[str, Any]]) -> None:
+        orig(logs)
+        if logs and logs[0].get("op_code") == 0:
+            b.delete_study(0)
+
+    a._backend.append_logs = hooked  # type: ignore[method-assign]
+    try:
+        got: Any = a.create_new_study([StudyDirection.MINIMIZE], "s")
+        outcome = "returned %r" % (got,)
+    except BaseException as e:  # noqa: BLE001
+        outcome = "raised %s" % type(e).__name__
+    chk.case({"part": "journal-create-study-race"}, nontrivial=True)
+    chk.count("journal-create-study-race")
+    if outcome != "returned 0":
+        chk.violation({"backend": "journal", "kind": "create-study-deleted-in-between"}, {"part": "journal-create-study-race", "outcome": outcome},
+                      "journal: create_new_study %s although the only sequential orders of {create_new_study('s'), delete_study(0) -> None} answer 0" % outcome)
+
+
 def main(chk: core.Check) -> int:
     chk.rule = RULE
     tables = tlock.regenerate(chk)
@@ -378,6 +410,7 @@ def main(chk: core.Check) -> int:
     if not getattr(chk, "no_prove", False):
         chk.prove(["OptunaVerif.Props.C03", "OptunaVerif.Props.C03Cache"])
     quick = chk.tier == "quick"
+    journal_create_study_race(chk)
     try:
         core.ensure_driver()
         explore(chk, ["mem", "journal-symlink", "journal-open"], 160 if quick else 3000)
